@@ -13,6 +13,8 @@ BASE = {"sq_l2_dist": 0, "l1_dist": 1, "linf_dist": 2}
 DERIVED = ["l2_dist", "mean_abs_err", "mean_sq_err", "root_mean_sq_err", "peak_signal_to_noise_ratio"]
 COUNTS = ["count_eq", "count_neq"]
 ETS = ["i32", "i64", "f64", "f32", "big"]
+MAXV = {"i32": [255, 4, 46340, 46341, 65535, 2 ** 31 - 1], "i64": [255, 65535, 3037000499, 3037000500, 2 ** 40, 2 ** 62],
+        "big": [255, 2 ** 80], "f64": [255.0, 1.0, 65535.0, 2.0 ** 100], "f32": [255.0, 1.0, 65535.0]}
 
 
 class C09(Prop):
@@ -55,10 +57,14 @@ class C09(Prop):
                 grp = "g%d%s" % (rep, et)
                 for r in list(BASE) + COUNTS + DERIVED:
                     params = "%d" % own
+                    maxv = None
                     if r == "peak_signal_to_noise_ratio":
-                        params += " " + enc_vals(et, [255 if et not in ("f64", "f32") else 255.0])[0]
+                        # peak values up to the top of the element type: maxv^2 must be formed in f64, not in
+                        # the element type (every value listed converts to f64 exactly)
+                        maxv = rng.choice(MAXV[et])
+                        params += " " + enc_vals(et, [maxv])[0]
                     yield mk_num_case(r, et, [(shape, a, la), (shape, b, lb)], params, grp=grp, own=own,
-                                      out_et=("f64" if r in DERIVED else et))
+                                      out_et=("f64" if r in DERIVED else et), maxv=maxv)
                 # symmetric call and identical arguments
                 yield mk_num_case("sq_l2_dist", et, [(shape, b, lb), (shape, a, la)], "%d" % own, grp=grp + "s", own=own, out_et=et)
                 yield mk_num_case("l1_dist", et, [(shape, a, la), (shape, a, lb)], "%d" % own, grp=grp + "i", own=own, out_et=et)
@@ -77,7 +83,7 @@ class C09(Prop):
             if "peak_signal_to_noise_ratio" in g and "mean_sq_err" in g:
                 c = g["peak_signal_to_noise_ratio"]
                 mse = fval("f64", g["mean_sq_err"].obs["vals"][0])
-                maxv = 255.0
+                maxv = float(c.maxv)
                 try:
                     arg = maxv * maxv / mse
                 except ZeroDivisionError:
